@@ -845,6 +845,13 @@ def contains(E, item, cont):
         return item in cont
     if isinstance(cont, SSeq) and getattr(cont, "contains", None):
         return cont.contains(E, item)
+    if isinstance(cont, SSeq) and getattr(cont, "unwrap", None) is not None and not isinstance(cont.length, int):
+        # membership in a list of symbolic-identity objects: exists j < len. ids[j] == id(item)
+        j = z3.Int(E.fresh("mem.j"))
+        b = z3.Bool(E.fresh("member"))
+        rid = cont.unwrap(item)
+        E.assume(b == z3.Exists([j], z3.And(j >= 0, j < zint(cont.length), z3.Select(cont.arr, j) == rid)))
+        return wrap_bool(b)
     if isinstance(cont, SSeq) and isinstance(cont.length, int):
         return contains(E, item, [wrap_int(cont.get(i)) for i in range(cont.length)])
     raise Unsupported("contains(%r in %r)" % (item, cont))
